@@ -22,6 +22,11 @@ impl VarID {
         let id = UNIQUE_ID_COUNTER.fetch_add(1, Ordering::SeqCst);
         VarID(id)
     }
+
+    #[cfg(feature = "verif")]
+    pub fn raw(&self) -> usize {
+        self.0
+    }
 }
 
 impl fmt::Display for VarID {
